@@ -180,14 +180,19 @@ Theorem C10_girth_ge_ref_partial : forall g r, wf g -> girth_go g = Done r -> r 
 Proof. exact girth_go_ge_ref. Qed.
 Print Assumptions C10_girth_ge_ref_partial.
 
+Theorem C10_girth_acyclic : forall g, wf g -> acyclic g -> girth_go g = Done (-1)%Z.
+Proof. exact girth_go_acyclic. Qed.
+Print Assumptions C10_girth_acyclic.
+
 (* Non-vacuity: a 5-cycle 0-1-2-3-4 with a pendant vertex 5 at 0, plus an isolated edge 6-7. *)
 Definition ex_graph : graph :=
   of_edges 8 [(0,1); (1,2); (2,3); (3,4); (4,0); (0,5); (6,7)].
 Example C10_nonvacuous :
+  wf ex_graph /\
   map (zdist ex_graph 2) (vertices ex_graph) = [2; 1; 0; 1; 2; 3; -1; -1]%Z /\
   comps_ref ex_graph = [[0; 1; 2; 3; 4; 5]; [6; 7]] /\
   comp_ref ex_graph 7 = [6; 7].
-Proof. vm_compute. repeat split. Qed.
+Proof. split; [apply of_edges_wf | vm_compute; repeat split]. Qed.
 
 Definition ex_swap (x : nat) : nat := if x =? 0 then 6 else if x =? 6 then 0 else x.
 Example C10_nonvacuous_relabel :
